@@ -36,6 +36,7 @@ def main():
     ap.add_argument("--tier", default="quick")
     ap.add_argument("--src", default="/repo/src")
     ap.add_argument("--jobs", type=int, default=1)
+    ap.add_argument("--json", default=None, help="append one JSON line per mutant to this file")
     a = ap.parse_args()
     muts = [m for m in load() if (not a.prop or m[1] in a.prop) and (not a.mutant or m[0] in a.mutant)]
     rows = []
@@ -67,6 +68,11 @@ def main():
         finally:
             shutil.rmtree(d, ignore_errors=True)
         print(f"{rows[-1][1]} {rows[-1][0]:40s} {rows[-1][2]}", flush=True)
+        if a.json:
+            import json
+
+            with open(a.json, "a") as fh:
+                fh.write(json.dumps({"mutant": rows[-1][0], "property": rows[-1][1], "result": rows[-1][2], "tier": a.tier}) + "\n")
     missed = [r for r in rows if not r[2].startswith("caught")]
     print(f"\n{len(rows)-len(missed)}/{len(rows)} caught")
     return 1 if missed else 0
